@@ -179,7 +179,9 @@ class RecSimulate(market.ScriptedSimulate):
     def __call__(self, n_paths=1, time_horizon=20 / 250, init_state=None):
         if self.events is not None:
             self.events.append(("simulate", n_paths, init_state, bool(torch.is_grad_enabled())))
-        return super().__call__(n_paths=n_paths, time_horizon=time_horizon, init_state=init_state)
+        out = super().__call__(n_paths=n_paths, time_horizon=time_horizon, init_state=init_state)
+        self.last_spot = self.p.spot.detach().clone()
+        return out
 
 
 class PassSimulate:
@@ -194,7 +196,9 @@ class PassSimulate:
     def __call__(self, n_paths=1, time_horizon=20 / 250, init_state=None):
         if self.events is not None:
             self.events.append(("simulate", n_paths, init_state, bool(torch.is_grad_enabled())))
-        return self.orig(self.p, n_paths=n_paths, time_horizon=time_horizon, init_state=init_state)
+        out = self.orig(self.p, n_paths=n_paths, time_horizon=time_horizon, init_state=init_state)
+        self.last_spot = self.p.spot.detach().clone()
+        return out
 
 
 class World:
@@ -211,6 +215,23 @@ def build_world(case, events):
     torch.manual_seed(1000 + case.get("wseed", 0))
     stock = market.primary("brownian", dtype=None, cost=1 / 256, dt=market.DT, sigma=0.25)
     deriv = market.derivative("european", stock, T=T, strike=1.0)
+    clause = case.get("clause")
+    if clause == "cap":
+        deriv.add_clause("c15_cap", lambda d, payoff: payoff.clamp(max=0.0625))
+    elif clause == "knockout":
+        deriv.add_clause("c15_knockout", lambda d, payoff: payoff.where(d.ul().spot.max(-1).values < 1.28125, torch.zeros_like(payoff)))
+    elif clause is not None:
+        raise KeyError(clause)
+
+    def payoff_model(spot):
+        """The harness' own model of the contract: European call payoff folded through the clause."""
+        z = torch.nn.functional.relu(spot[..., -1] - 1.0)
+        if clause == "cap":
+            z = torch.minimum(z, torch.full_like(z, 0.0625))
+        elif clause == "knockout":
+            z = torch.where(spot.max(-1).values < 1.28125, z, torch.zeros_like(z))
+        return z
+    w.payoff_model = payoff_model
     if case.get("rng", "scripted") == "scripted":
         w.sim = RecSimulate(stock, [script_for_call(c, T) for c in range(N_SCRIPTS)], events)
     else:
@@ -425,7 +446,8 @@ class Recorder:
             if not any(o is opt for o in rec.seen_opts):
                 rec.seen_opts.append(opt)
             p = tracked(rec.w)
-            rec.steps.append({"opt": opt, "grads": snap(p, grads=True), "before": snap(p)})
+            rec.steps.append({"opt": opt, "grads": snap(p, grads=True), "before": snap(p),
+                              "batch": getattr(rec.w.sim, "last_spot", None)})
 
         def post(opt, args, kwargs):
             rec.steps[-1]["after"] = snap(tracked(rec.w))
@@ -498,10 +520,50 @@ def run_reference(w, case, call):
             w.hedger, w.derivative, w.hedge, make_optimizer, call["k"], case["n_paths"], case["n_times"],
             w.init_state, case["validation"],
             on_grad=lambda e, o: grads.append(snap(tracked(w), grads=True)),
-            on_step=lambda e, o: after.append(snap(tracked(w))))
+            on_step=lambda e, o: after.append(snap(tracked(w))),
+            payoff_of=lambda: w.payoff_model(w.stock.spot))
     except Exception as e:  # the reference itself uses pfhedge/torch pieces
         return type(e).__name__, None, grads, after
     return None, hist, grads, after
+
+
+def unrolled_gradient(w, case, before, batch):
+    """Gradient of the training loss of one epoch from an explicit re-implementation, in plain torch, of the recurrent
+    hedge (features moneyness, time to maturity, previous output fed DIRECTLY into the next step), of the
+    self-financing wealth with proportional costs and of the contractual payoff; nothing of the hedger's loop, hooks or
+    buffers is used (only the network's layers, functionally, and the criterion).  For the model ``lazy_mlp``."""
+    from torch.func import functional_call
+    net = w.model.net
+    pre = "hedger.model.net."
+    params = {n[len(pre):]: before[n].detach().clone().requires_grad_() for n in before if n.startswith(pre)}
+    S = batch
+    N, T = S.shape
+    H = w.H
+    prev = S.new_zeros((N, H))
+    units = []
+    for t in range(T - 1):
+        x = torch.cat([S[:, t:t + 1] / 1.0, S.new_full((N, 1), (T - 1 - t) * market.DT), prev], dim=-1)
+        prev = functional_call(net, params, (x,))
+        units.append(prev)
+    units.append(units[-1])
+    unit = torch.stack(units, dim=-1)                                   # (N, H, T)
+    prices = [S]
+    costs = [1 / 256]
+    if H == 2:
+        prices.append(torch.nn.functional.relu(S - 1.125) + 0.25 * S)
+        costs.append(1 / 128)
+    wealth = S.new_zeros(N)
+    for h in range(H):
+        P, u, c = prices[h], unit[:, h, :], costs[h]
+        wealth = wealth + (u[:, :-1] * (P[:, 1:] - P[:, :-1])).sum(-1)
+        wealth = wealth - c * (P[:, 1:] * (u[:, 1:] - u[:, :-1]).abs()).sum(-1) - c * P[:, 0] * u[:, 0].abs()
+    crit = w.hedger.criterion
+    cparams = {n: before["hedger.criterion." + n].detach().clone().requires_grad_() for n, _ in crit.named_parameters()}
+    loss = functional_call(crit, cparams, (wealth, w.payoff_model(S))) if cparams else crit(wealth, w.payoff_model(S))
+    names = [pre + n for n in params] + ["hedger.criterion." + n for n in cparams]
+    tensors = list(params.values()) + list(cparams.values())
+    grads = torch.autograd.grad(loss, tensors, allow_unused=True)
+    return {n: (torch.zeros_like(t) if g is None else g) for n, t, g in zip(names, tensors, grads)}
 
 
 def _raised_by_harness(exc):
@@ -674,6 +736,28 @@ def _compare_call(ctx, case, call, ci, w, rec, events, params0, final, history, 
             ctx.violation(site, f"{pfx}params:after_step", f"parameters after the step of epoch {e} differ from the explicit loop "
                           f"({len(bad)} parameters, first {n0}) {tag}",
                           observed=rec.steps[e]["after"].get(n0), expected=r_after[e][n0], block=mini)
+    # (b') gradient of each step against a reference that shares NOTHING with the hedger's recurrent loop
+    if case["model"] == "lazy_mlp" and not call["swap"]:
+        for e in range(n_steps):
+            st = rec.steps[e]
+            if st.get("batch") is None or any(isinstance(v, str) for v in st["before"].values()):
+                continue
+            owned_e = set(id(p) for g in st["opt"].param_groups for p in g["params"])
+            ref = unrolled_gradient(w, case, st["before"], st["batch"])
+            cur_e = tracked(w)
+            scale = max([float(v.abs().max()) for v in ref.values()] + [1e-30])
+            stats["unrolled_gradients"] = stats.get("unrolled_gradients", 0) + 1
+            for n_, gref in ref.items():
+                if id(cur_e[n_]) not in owned_e:
+                    continue
+                got = st["grads"].get(n_)
+                got = torch.zeros_like(gref) if got is None else got
+                # float32, a few hundred operations in another order: 1e-3 of the gradient's scale
+                if not bool(((got - gref).abs() <= 1e-3 * scale + 1e-7).all()):
+                    ctx.violation(site, f"{pfx}grad:differs_from_unrolled_recurrence", f"gradient handed to the optimiser at epoch {e} ({n_}) differs from the "
+                                  f"gradient of the explicitly unrolled recurrence (previous hedge fed directly into the next step) {tag}",
+                                  observed=got.flatten()[:6], expected=gref.flatten()[:6], block=mini)
+                    break
     bad = diff_names(final, r_final)
     if bad and not reported:
         reported = True
@@ -762,7 +846,7 @@ def _finish_stats(ctx, stats):
         ctx.outcome(("automaton_state",) + tuple(s))
     if stats["unchanged"]:
         ctx.add("runs_with_steps_but_unchanged_parameters", stats["unchanged"])
-    for key in ("two_call_histories", "nonfinite_loss_runs", "nonfinite_loss_finite_gradient_runs"):
+    for key in ("two_call_histories", "nonfinite_loss_runs", "nonfinite_loss_finite_gradient_runs", "unrolled_gradients"):
         if stats.get(key):
             ctx.add(key, stats[key])
 
@@ -842,6 +926,7 @@ def run(ctx):
     ctx.alphabet("model", list(MODELS) + list(FROZEN))
     ctx.alphabet("criterion", list(CRITERIA) + list(NONFINITE))
     ctx.alphabet("verbose", [False, True])
+    ctx.alphabet("payoff_clause", [None, "cap at 1/16", "knock-out at 1.28125"])
     ctx.alphabet("hedge", list(HEDGES))
     ctx.alphabet("pre", list(PRES))
     ctx.alphabet("two_call_sequences(optimiser of call 1, of call 2)", [list(x) for x in SEQUENCES])
@@ -876,6 +961,11 @@ def run(ctx):
         ctx.run("fit_scripted", _expand(p7, wseed))
         p7["product"]["pre"] = ["fresh"]
         ctx.run("real_rng", _expand(p7, wseed))
+        # P8: derivatives whose payoff is changed by a clause (cap, knock-out)
+        p8 = {"product": {"k": [1, 2], "val_ntimes": [[True, 1]], "opt": ["default", "sgd_inst", "user_class"], "model": ["mlp", "lazy_mlp"],
+                          "content": [["erm", "none", None, 3], ["oce", "stock+listed", 1.25, 3]], "pre": ["fresh"],
+                          "clause": ["cap", "knockout"]}}
+        ctx.run("fit_scripted", _expand(p8, wseed))
         two = _two_call_cases(wseed, [(1, 1), (2, 2), (0, 1)], [(True, 1), (False, 1)],
                               [["erm", "none", None, 3]], ["fresh"])
         two += _two_call_cases(wseed, [(1, 2)], [(True, 2)], [["oce", "stock+listed", 1.25, 1]], ["used"])
@@ -903,6 +993,9 @@ def run(ctx):
         blocks.append(_expand({"product": {"k": [1, 2, 3], "val_ntimes": VN, "opt": list(OPTS), "model": ["mlp", "lazy_mlp"] + list(FROZEN),
                                            "criterion": list(NONFINITE), "hedge": list(HEDGES), "init": [None, 1.25],
                                            "n_paths": [3], "pre": ["fresh", "used"]}}, wseed))
+        blocks.append(_expand({"product": {"k": [1, 2, 3], "val_ntimes": [[False, 1], [True, 2]], "opt": list(OPTS), "model": list(MODELS),
+                                           "criterion": list(CRITERIA), "hedge": list(HEDGES), "init": [None, 1.25], "n_paths": [3],
+                                           "pre": ["fresh"], "clause": ["cap", "knockout"]}}, wseed))
         for model in MODELS:
             blocks.append(_expand({"product": {"k": [0, 1, 2, 3], "val_ntimes": VN, "opt": list(OPTS), "model": [model],
                                                "criterion": ["erm", "oce"], "hedge": ["none", "stock+listed"], "init": [None],
